@@ -33,6 +33,7 @@ THEOREMS = [
     "lru_evicts_least_recent",
     "lru_no_spurious_eviction",
     "lru_set_then_get_hits",
+    "lru_recent_key_survives",
     "lru_has_is_pure_and_clear_empties",
     "cachedTemplate_is_lru_history",
     "cached_transparent",
